@@ -161,7 +161,13 @@ type World struct {
 	runDoneAt        time.Time // simulated time at which Run returned
 	tickIdx          int
 	races            []runner.Violation // race flavour: reports of the race detector attributed to the code under test
-	pubEng           int32              // race flavour: released when the application has its Engine / Client handle, acquired by its other goroutines
+	sibEng           gnet.Engine        // the older engine under the same address (plans with cfg.sibling)
+	sibBooted        bool
+	sibParked        bool // its Run waits for the shutdown (it has registered itself)
+	mainParked       bool
+	sibDone          bool
+	sibGone          bool
+	pubEng           int32 // race flavour: released when the application has its Engine / Client handle, acquired by its other goroutines
 	stopAskedStep    int
 	floodUsers       int // application tasks that issue asynchronous writes until Run returns
 	spinSeen         bool
@@ -443,10 +449,40 @@ func (w *World) run() {
 	w.installDialHook()
 	defer func() { vnet.DialHook = nil }()
 
+	if p.Cfg.Sibling && !p.Cfg.Client {
+		// an older engine under the same address (SO_REUSEPORT, e.g. the previous
+		// generation of a restart): it starts first, is stopped through its own handle
+		// once the engine under test runs, and must leave that one reachable for the
+		// package-level Stop ("shuts down the last registered Engine")
+		s.Go("sibling", func() {
+			err := gnet.Run(&sibling{w}, w.addr, gnet.WithReusePort(true), gnet.WithNumEventLoop(1), gnet.WithLogger(recLogger{w}))
+			w.logf("sibling engine returned err=%v", err)
+			w.sibDone = true
+		})
+		s.Go("sibling-stop", func() {
+			// (an engine is in the package-level registry once its Run has reached the
+			// point where it waits for the shutdown: "registered last" is the one under test)
+			vsched.Block("sibling:wait-main", func() bool { return w.mainParked && w.sibParked || w.runDone })
+			if !w.sibBooted || w.runDone {
+				return
+			}
+			ctx, cancel := context.WithTimeout(context.Background(), 30*time.Second)
+			defer cancel()
+			err := w.sibEng.Stop(ctx)
+			vsched.Yield("post-block")
+			w.logf("sibling stopped: %v", err)
+			vsched.Block("sibling:wait-done", func() bool { return w.sibDone })
+			w.sibGone = true
+			w.probes["older-engine-under-the-same-address-stopped"]++
+		})
+	}
 	s.Go("run", func() {
 		if p.Cfg.Client {
 			w.runClient()
 			return
+		}
+		if p.Cfg.Sibling {
+			vsched.Block("run:wait-sibling", func() bool { return w.sibParked || w.sibDone })
 		}
 		var err error
 		if w.multi() {
@@ -495,6 +531,14 @@ func (w *World) events() []vsched.Event {
 	if w.ph == phDone {
 		return nil
 	}
+	if w.p.Cfg.Sibling && !w.sibGone {
+		if st, _, _ := w.s.TaskState("sibling"); w.sibBooted && st == "goblocked" {
+			w.sibParked = true
+		}
+		if st, _, _ := w.s.TaskState("run"); w.booted && st == "goblocked" {
+			w.mainParked = true
+		}
+	}
 	for _, ps := range w.peers {
 		ps := ps
 		if w.peerEnabled(ps) {
@@ -520,7 +564,7 @@ func (w *World) events() []vsched.Event {
 			}})
 		}
 	}
-	if !w.stopRequested && !w.stopEventUsed && w.booted && w.p.Stop.AtStep > 0 && w.s.Step() >= w.p.Stop.AtStep && (w.p.Stop.Source == "engine.Stop" || w.p.Stop.Source == "gnet.Stop" || w.p.Stop.Source == "client.Stop") {
+	if !w.stopRequested && !w.stopEventUsed && w.booted && (!w.p.Cfg.Sibling || w.sibGone) && w.p.Stop.AtStep > 0 && w.s.Step() >= w.p.Stop.AtStep && (w.p.Stop.Source == "engine.Stop" || w.p.Stop.Source == "gnet.Stop" || w.p.Stop.Source == "client.Stop") {
 		evs = append(evs, vsched.Event{Name: "stop", Run: func() { w.stopEventUsed = true; w.requestStop() }})
 	}
 	if w.p.Cfg.Ticker && w.booted && !w.runDone && w.ph == phWorkload && w.tickIdx < len(w.p.Cfg.TickAt) && w.s.Step() >= w.p.Cfg.TickAt[w.tickIdx] {
@@ -721,6 +765,9 @@ func (w *World) peerEnabled(ps *peerState) bool {
 		if w.p.Cfg.Serial && w.inTransit() {
 			return false
 		}
+		if w.p.Cfg.Sibling && !w.sibGone {
+			return false // the older engine still listens on the same address
+		}
 		return key != "" && w.k.Listening(key) && w.booted
 	}
 	if ps.pc >= len(ps.cp.Peer) {
@@ -914,6 +961,10 @@ func (w *World) onStep() {
 func (w *World) onQuiescent(idle int) int {
 	switch w.ph {
 	case phWorkload:
+		if w.p.Cfg.Sibling && w.sibBooted && !w.sibGone && !w.runDone && idle < 60 {
+			// the older engine is being stopped: its Stop polls on a timer
+			return vsched.QWait
+		}
 		if !w.booted && !w.runDone && idle > 3 {
 			w.violate("HARNESS", "no-boot", "engine did not boot: %v", w.s.Alive())
 			return vsched.QStop
@@ -1116,3 +1167,23 @@ func usesEngineRegister(p *Plan) bool {
 	}
 	return dialers > 1
 }
+
+// sibling is the handler of the older engine of a plan with cfg.sibling: it
+// never serves a connection (peers connect once it is gone).
+type sibling struct{ w *World }
+
+func (h *sibling) OnBoot(eng gnet.Engine) gnet.Action {
+	defer vsched.Restore(vsched.EnterHarness())
+	h.w.sibEng, h.w.sibBooted = eng, true
+	h.w.logf("sibling OnBoot")
+	return gnet.None
+}
+func (h *sibling) OnShutdown(gnet.Engine) {}
+func (h *sibling) OnOpen(c gnet.Conn) ([]byte, gnet.Action) {
+	defer vsched.Restore(vsched.EnterHarness())
+	h.w.violate("HARNESS", "sibling-served", "the older engine accepted a connection")
+	return nil, gnet.Close
+}
+func (h *sibling) OnClose(gnet.Conn, error) gnet.Action { return gnet.None }
+func (h *sibling) OnTraffic(gnet.Conn) gnet.Action      { return gnet.None }
+func (h *sibling) OnTick() (time.Duration, gnet.Action) { return time.Hour, gnet.None }
